@@ -170,7 +170,7 @@ void h_bt_fill_u8(void) { uint8_t buf[BT_BYTES_MAX]; size_t n = nondet_size(); G
     dict(name='dequeue',
          extracts=dict(IMPL_EX,
                        deq=dict(file=NQ, scope=IMPL, locate=r'std::pair< notification_queue_entry_type, std::size_t > dequeue_indication_or_confirmation\( std::size_t offset, std::size_t& outstanding_confirmation \)',
-                                rules=DEQ_RULES + [(r'\bat\( i \)', 'at( self, i )', 1), (r'\bremove\( i,', 'remove_( self, i,', 2)],
+                                rules=DEQ_RULES + [(r'\bat\( i \)', 'at( self, i )', '+'), (r'\bremove\( i,', 'remove_( self, i,', '+')],
                                 loops=[DEQ_LOOP])),
          code=IMPL_HEAD + ';' + REMOVE_DECL + ';' + SETUP + r'''
 size_t G_next0, G_out0; int G_bits_k0;
